@@ -973,12 +973,16 @@ func (w *World) apply(i int, op Op) bool {
 		}
 	case "txburst":
 		// N writes of small contents to fresh keys with names of Len bytes, through one transaction
+		// (Via "same": N overwrites of one pool key instead; also allowed outside transactions)
 		id, ok := w.pickActor(op)
-		if !ok || id == 0 {
+		if !ok {
 			return true
 		}
 		for j := 0; j < op.N; j++ {
 			key := w.bulkKey(i, j, op.Len)
+			if op.Via == "same" {
+				key = w.key(op.Key)
+			}
 			v := model.Val{Len: 1 + j%5, Seed: uint32(i*100000 + j + 1)}
 			b := model.Bytes(v)
 			w.noteContent(b, fmt.Sprintf("content written at step %d (#%d of a burst) by %s", i, j, actorName(w, id)))
@@ -1052,13 +1056,17 @@ func (w *World) ApplyDry(i int, op Op) {
 		w.M.Write(id, key, v)
 	case "txburst":
 		id, ok := w.pickActor(op)
-		if !ok || id == 0 {
+		if !ok {
 			return
 		}
 		for j := 0; j < op.N; j++ {
 			v := model.Val{Len: 1 + j%5, Seed: uint32(i*100000 + j + 1)}
 			w.noteContent(model.Bytes(v), fmt.Sprintf("content written at step %d (#%d of a burst) by %s", i, j, actorName(w, id)))
-			w.M.Write(id, w.bulkKey(i, j, op.Len), v)
+			key := w.bulkKey(i, j, op.Len)
+			if op.Via == "same" {
+				key = w.key(op.Key)
+			}
+			w.M.Write(id, key, v)
 		}
 	case "commit", "rollback":
 		id, ok := w.pickActor(op)
